@@ -247,9 +247,12 @@ def write_evidence(prop, tier, seed, results, violations, known, undecided, wall
                 manifest_level = c["level_claimed"]["category"]
     except Exception:
         pass
+    # obligations attributed to a recorded known finding are reported separately (they are NOT discharged and are not
+    # part of what this run claims to have proved); obligations/discharged count everything else
     known_obl = {id(x[2]) for x in known}
-    open_obl = [o for o in obl if o["status"] != "proved"]
-    n_known_open = sum(1 for kf, rp, o in known if isinstance(o, dict) and o.get("expect") == "proved")
+    n_known_open = sum(1 for o in obl if id(o) in known_obl and o["status"] != "proved")
+    obl = [o for o in obl if not (id(o) in known_obl and o["status"] != "proved")]
+    dis = [o for o in obl if o["status"] == "proved"]
     level = manifest_level
     if level == "proof" and (len(obl) == 0 or proof_lost):
         level = "exploration"     # proof (partly) lost on this tree: only the bounded exploration stands
